@@ -25,9 +25,9 @@ type c06Params struct {
 
 func init() {
 	register(&c06{base{
-		id:    "C06",
-		level: lvlExploration,
-		rule: "each case: an independent PAR2 writer emits a set for seeded files (ASCII names, some in sub-directories) with a seeded layout: base name drawn from a corpus with spaces and glob metacharacters, recovery blocks with a random exponent subset of 0..4000 spread over 1..6 arbitrarily named <base>.*.par2 files, packets permuted and duplicated, packets of a foreign recovery set (with clashing exponents) and of unknown types interleaved, volume files with or without copies of the main/description/checksum packets; the index file stays free of recovery packets and starts with a packet of its own set, every file has a creator packet. Then real par2.Verify must count every slice and exactly the distinct exponents written; after seeded damage within capacity real par2.Repair must restore all files (singularity of the forced system decided by reference). A key is (base-name class, #volume files, exponent-set class, layout features)",
+		id:          "C06",
+		level:       lvlExploration,
+		rule:        "each case: an independent PAR2 writer emits a set for seeded files (ASCII names, some in sub-directories) with a seeded layout: base name drawn from a corpus with spaces and glob metacharacters, recovery blocks with a random exponent subset of 0..4000 spread over 1..6 arbitrarily named <base>.*.par2 files, packets permuted and duplicated, packets of a foreign recovery set (with clashing exponents) and of unknown types interleaved, volume files with or without copies of the main/description/checksum packets; the index file stays free of recovery packets and starts with a packet of its own set, every file has a creator packet. Then real par2.Verify must count every slice and exactly the distinct exponents written; after seeded damage within capacity real par2.Repair must restore all files (singularity of the forced system decided by reference). A key is (base-name class, #volume files, exponent-set class, layout features)",
 		assumptions: commonAssumptions,
 		opts:        core.WorkerOpts{CrashIsViolation: true, WallSeconds: 2400},
 	}})
@@ -56,7 +56,10 @@ func unknownPacket(rng *rand.Rand, setID [16]byte) par2rw.Packet {
 	if rng.Intn(2) == 0 {
 		copy(t[:], "PAR 2.0\x00UniFileN")
 	}
-	body := make([]byte, 4*(1+rng.Intn(10)))
+	body := make([]byte, 4*rng.Intn(10)) // a quarter of these have an EMPTY body (packet length exactly 64)
+	if rng.Intn(4) == 0 {
+		body = nil
+	}
 	rng.Read(body)
 	return par2rw.Packet{SetID: setID, Type: t, Body: body}
 }
@@ -139,6 +142,12 @@ func (c *c06) Run(cs core.Case) core.Result {
 	if rng.Intn(2) == 0 {
 		features["unknown-in-index"] = true
 		idxPk = append(idxPk, unknownPacket(rng, ref.SetID))
+	}
+	if rng.Intn(4) == 0 {
+		features["empty-body-packets"] = true
+		var t [16]byte
+		copy(t[:], "PAR 2.0\x00Comment?")
+		idxPk = append(idxPk, par2rw.Packet{SetID: ref.SetID, Type: t}, par2rw.Packet{SetID: foreign.SetID, Type: t})
 	}
 	if rng.Intn(3) == 0 {
 		features["foreign-in-index"] = true
@@ -273,7 +282,9 @@ func (c *c06) Run(cs core.Case) core.Result {
 	_, skip := env.st.Find()
 	k := total - len(wit)
 	var rerr error
-	if pi := core.Protect(func() { _, rerr = par2.Repair(idx, par2.RepairOptions{NumGoroutines: 3, DoubleCheck: rng.Intn(2) == 0}) }); pi != nil {
+	if pi := core.Protect(func() {
+		_, rerr = par2.Repair(idx, par2.RepairOptions{NumGoroutines: 3, DoubleCheck: rng.Intn(2) == 0})
+	}); pi != nil {
 		r.Violate(core.CrashSig("par2.Repair", pi.Frame, pi.Msg), "Repair panicked on a conformant set: %s; %s", pi.Msg, desc)
 		return r.Done()
 	}
